@@ -9,6 +9,23 @@ CLAIMS = {
                 'call the trusted-state writers. A structural necessary condition of C01, not the behaviour as a whole.',
         'note': 'Not decided: correctness of the comparisons inside check_if_response_is_matched, sampling match, MMR/PoW libraries.',
     },
+    'C02': {
+        'technique': 'static analysis: guard-flow typestate + who-may-call + key-family writer discovery over compiler MIR',
+        'text': 'Decides for all CFG paths that fetched headers/transactions are persisted, matched blocks marked proved and block '
+                'bodies stored/indexed only behind: an outstanding request, equality of last hash and of requested hashes, PoW, MMR '
+                'proof, (v1) extra hash, (txs) the Merkle root compared with transactions_root, the proved flag, and the body '
+                'commitment (transactions root and extra hash recomputed from the downloaded body). Structural necessary conditions.',
+        'note': 'Not decided: MMR / Merkle arithmetic (trusted libraries); which peer serves which request.',
+    },
+    'C11': {
+        'technique': 'static analysis: enum-dispatch variant tables extracted from MIR, compared with the documented diagram and with sibling predicates; dominance and field-write ownership',
+        'text': 'Exhaustive over the 7-variant x 4-event table: the transition relation extracted from the code equals the plantuml '
+                'diagram plus a frozen list of reasoned extras; no transition drops a prove state; selector predicates agree with '
+                'the Ok-domains of the transitions they guard; Peer.state has four writers; stale/unsolicited proofs cannot reach the '
+                'commit; timeout/disconnect paths mark in-flight fetches first; only 4xx statuses ban. Replaces the event-sequence '
+                'quantifier by per-transition invariants; does not decide timer arithmetic or multi-peer schedules.',
+        'note': 'Not decided: now > when_sent + MESSAGE_TIMEOUT arithmetic; interleavings of several peers.',
+    },
 }
 
 _PENDING = 'check not built yet in this round (planned in DESIGN.md §5); not claimed until its rules run on the tree'
